@@ -10,6 +10,8 @@ through stub datasets for all 16 x 3 combinations.
 """
 from fractions import Fraction
 
+import warnings
+import numpy as np
 import common
 import rasters
 
@@ -195,6 +197,7 @@ def cross_crs(run):
     elongated_reference(run, tmp)
     rotated_reference_other_crs(run, tmp)
     shared_origin(run, tmp)
+    flush_south_up(run, tmp)
     for name, scrs, rcrs, (rx0, rytop) in pairs:
         rres, rw, rh = 10.0, 400, 400
         rt = Affine(rres, 0, rx0, 0, -rres, rytop)
@@ -252,6 +255,49 @@ def cross_crs(run):
                             f'construction raised {got}')
                     run.fail(case, what, signature=dict(kind='cross-crs-accepted' if got == 1 else 'cross-crs', crs=name,
                                                         in_reprojected_bbox=bool(in_box)))
+
+
+def flush_south_up(run, tmp):
+    """
+    Finding D14 (repaired), kept as a deterministic leg: a contained source stored south-up whose top edge is flush with the
+    reference's top edge, in decimal coordinates - the file stores the source's *bottom* as origin, so its top is
+    `bottom + h * py` in floating point and can come out a few 1e-13 pixels above the reference's top.  Such a pair is accepted.
+    """
+    import rasterio as rio
+    from rasterio.transform import Affine
+    from homonim import RasterFuse
+    from homonim.errors import ImageContentError
+    k = 0
+    # (origins as a person would type them: bottom = round(top - h * pixel, 4); in each of these `bottom + h * pixel` exceeds `top` by
+    # 1e-10 .. 2e-8 pixels in double precision)
+    for top, ps, h, bottom in ((3997.25, 0.1, 109, 3986.35), (7654321.3, 0.1, 24, 7654318.9), (7654321.3, 0.3, 23, 7654314.4),
+                               (7654321.3, 0.05, 23, 7654320.15), (123456.7, 0.1, 21, 123454.6), (123456.7, 0.45, 23, 123446.35)):
+        for left_in in (0.0, 3.0):
+            k += 1
+            rp, sp = tmp / f'c16fs_r{k}.tif', tmp / f'c16fs_s{k}.tif'
+            rt = Affine(1.0, 0, 1000.0, 0, -1.0, top)
+            w = 37
+            st = Affine(ps, 0, 1000.0 + left_in, 0, ps, bottom)       # south-up: origin at the bottom, positive row step
+            for path, tr, ww, hh in ((rp, rt, 40, int(h * ps) + 12), (sp, st, w, h)):
+                with rio.open(path, 'w', driver='GTiff', width=ww, height=hh, count=1, dtype='float32', crs='EPSG:32735', transform=tr,
+                              nodata=float('nan')) as ds:
+                    ds.write(np.ones((1, hh, ww), dtype='float32'))
+            case = dict(i=900_000 + k, op='south-up source flush with the top of the reference', top=top, pixel=ps, rows=h, left_margin=left_in)
+            try:
+                with warnings.catch_warnings():
+                    warnings.simplefilter('ignore')
+                    RasterFuse(sp, rp)
+                got = 'accepted'
+            except ImageContentError:
+                got = 'rejected'
+            except Exception as ex:
+                got = f'raised {type(ex).__name__}'
+            run.evaluations += 1
+            run.hist[f'south-up flush-top pairs: {got.split()[0]}'] += 1
+            run.nontrivial.add(('flush-south-up', k))
+            if got != 'accepted':
+                run.fail(case, f'a source contained in the reference (top edges flush, {ps} m pixels, top at {top}) was {got}',
+                         signature=dict(kind='contained-rejected', op='flush-south-up'))
 
 
 def small_overhang(run, tmp):
